@@ -27,6 +27,11 @@ pub enum Step {
     AcceptSendHold(Vec<u8>, i64),
     /// accept, send the head, really pause this many ms in the middle of the line, send the tail, close
     AcceptSplitLine(Vec<u8>, u64, Vec<u8>),
+    /// accept, send the first bytes (possibly ending mid-line), stay silent - the connection open and
+    /// healthy - for longer than every socket time-out the reader installed (time-outs are compressed
+    /// 100:1 by the shim) or, with `Some(ms)`, for that much real time with uncompressed time-outs;
+    /// then send the rest on the same connection and close
+    AcceptSendIdleSend(Vec<u8>, Vec<u8>, Option<u64>),
 }
 
 impl Step {
@@ -39,6 +44,8 @@ impl Step {
             Step::AcceptJunk(b) => format!("accept+junk({} bytes)+close", b.len()),
             Step::AcceptSendHold(b, t) => format!("accept+frames({} bytes)+healthy for {t} s+close", b.len()),
             Step::AcceptSplitLine(h, ms, t) => format!("accept+{} bytes+pause {ms} ms mid-line+{} bytes+close", h.len(), t.len()),
+            Step::AcceptSendIdleSend(h, t, None) => format!("accept+{} bytes+silent beyond every socket time-out+{} bytes+close", h.len(), t.len()),
+            Step::AcceptSendIdleSend(h, t, Some(ms)) => format!("accept+{} bytes+silent for {ms} ms of real time+{} bytes+close", h.len(), t.len()),
         }
     }
 }
@@ -59,6 +66,8 @@ pub struct TcpReport {
     pub reader_result: Option<String>,
     /// virtual wall-clock time that passed during the script (ms): pauses and healthy periods
     pub elapsed_ms: i64,
+    /// socket time-outs (s, us) the reader asked for during the script
+    pub socket_timeouts: Vec<(i64, i64)>,
 }
 
 const STEP_TIMEOUT: Duration = Duration::from_secs(8);
@@ -132,6 +141,63 @@ fn wait_until(mut f: impl FnMut() -> bool) -> bool {
     false
 }
 
+/// The reader's end of the connection whose server end is `s` (both live in this process): the socket fd
+/// whose local address is our peer address and whose peer is our local address.
+fn client_fd_of(s: &TcpStream) -> Option<i32> {
+    let (ours, theirs) = (s.local_addr().ok()?, s.peer_addr().ok()?);
+    let name = |fd: i32, peer: bool| -> Option<std::net::SocketAddr> {
+        let mut sa: libc::sockaddr_in = unsafe { std::mem::zeroed() };
+        let mut len = std::mem::size_of::<libc::sockaddr_in>() as libc::socklen_t;
+        let r = unsafe {
+            if peer { libc::getpeername(fd, &mut sa as *mut _ as *mut libc::sockaddr, &mut len) } else { libc::getsockname(fd, &mut sa as *mut _ as *mut libc::sockaddr, &mut len) }
+        };
+        if r != 0 || sa.sin_family != libc::AF_INET as libc::sa_family_t {
+            return None;
+        }
+        Some(std::net::SocketAddr::from((std::net::Ipv4Addr::from(u32::from_be(sa.sin_addr.s_addr)), u16::from_be(sa.sin_port))))
+    };
+    for e in std::fs::read_dir("/proc/self/fd").ok()?.flatten() {
+        let Some(fd) = e.file_name().to_str().and_then(|x| x.parse::<i32>().ok()) else { continue };
+        if fd == s.as_raw_fd() {
+            continue;
+        }
+        if name(fd, false) == Some(theirs) && name(fd, true) == Some(ours) {
+            return Some(fd);
+        }
+    }
+    None
+}
+
+/// Everything written to `s` so far has been taken over by the reader and processed: our send queue is
+/// empty, the reader's receive queue is empty, and a thread of this process is blocked in a read on the
+/// reader's socket. Waits up to a second (a reader that has given the connection up never gets there).
+fn wait_consumed(s: &TcpStream) -> bool {
+    let Some(cfd) = client_fd_of(s) else {
+        shim::real_sleep_us(3000);
+        return false;
+    };
+    let t = RealTimer::now();
+    while t.elapsed() < std::time::Duration::from_secs(1) {
+        let (mut outq, mut inq): (libc::c_int, libc::c_int) = (0, 0);
+        let ok = unsafe { libc::ioctl(s.as_raw_fd(), libc::TIOCOUTQ, &mut outq) == 0 && libc::ioctl(cfd, libc::FIONREAD, &mut inq) == 0 };
+        if ok && outq == 0 && inq == 0 {
+            let blocked = std::fs::read_dir("/proc/self/task").ok().into_iter().flatten().flatten().any(|e| {
+                std::fs::read_to_string(e.path().join("syscall")).ok().is_some_and(|l| {
+                    let mut it = l.split_whitespace();
+                    let nr = it.next().and_then(|x| x.parse::<i64>().ok());
+                    let a0 = it.next().and_then(|x| i64::from_str_radix(x.trim_start_matches("0x"), 16).ok());
+                    matches!(nr, Some(n) if n == libc::SYS_recvfrom || n == libc::SYS_read) && a0 == Some(cfd as i64)
+                })
+            });
+            if blocked {
+                return true;
+            }
+        }
+        shim::real_sleep_us(100);
+    }
+    false
+}
+
 fn set_linger0(s: &TcpStream) {
     let l = libc::linger { l_onoff: 1, l_linger: 0 };
     unsafe {
@@ -189,6 +255,7 @@ pub fn run_script(opts: &[&str], script: &[Step], healthy: &[u8], expect_in_fina
     let table: Table = new_table();
     shim::arm_sleep_gate();
     shim::wall_follows_virtual_time(true);
+    shim::compress_socket_timeouts(!script.iter().any(|s| matches!(s, Step::AcceptSendIdleSend(_, _, Some(_)))));
     let mut seen = shim::sleep_requests();
 
     // the first step decides whether somebody listens when the reader starts
@@ -256,11 +323,29 @@ pub fn run_script(opts: &[&str], script: &[Step], healthy: &[u8], expect_in_fina
                         let _ = s.flush();
                         drop(s);
                     }
+                    Some(Step::AcceptSendIdleSend(h, t, real)) => {
+                        let _ = s.write_all(h);
+                        let _ = s.flush();
+                        let idle_us = match real {
+                            Some(ms) => *ms * 1000,
+                            None => {
+                                wait_consumed(&s); // the reader has set up its socket by now
+                                let longest = shim::installed_socket_timeouts_us().into_iter().max().unwrap_or(0);
+                                rep.socket_timeouts = shim::requested_socket_timeouts();
+                                (longest as u64 * 3 / 2 + 130_000).max(150_000)
+                            }
+                        };
+                        shim::real_sleep_us(idle_us);
+                        let _ = s.write_all(t);
+                        let _ = s.flush();
+                        wait_consumed(&s);
+                        drop(s);
+                    }
                     Some(Step::AcceptSendHold(b, secs)) => {
                         let _ = s.write_all(b);
                         let _ = s.flush();
                         // let the reader consume the data, then let (virtual) time pass while connected
-                        shim::real_sleep_us(2000);
+                        wait_consumed(&s);
                         shim::advance_monotonic(*secs, 0);
                         drop(s);
                     }
@@ -268,7 +353,7 @@ pub fn run_script(opts: &[&str], script: &[Step], healthy: &[u8], expect_in_fina
                         let _ = s.write_all(b);
                         let _ = s.flush();
                         // let the bytes arrive before the reset discards them
-                        shim::real_sleep_us(3000);
+                        wait_consumed(&s);
                         set_linger0(&s);
                         drop(s);
                     }
@@ -305,6 +390,7 @@ pub fn run_script(opts: &[&str], script: &[Step], healthy: &[u8], expect_in_fina
             });
             shim::disarm_sleep_gate();
             shim::wall_follows_virtual_time(false);
+            shim::compress_socket_timeouts(false);
             return rep;
         }
         if !parked {
@@ -318,6 +404,7 @@ pub fn run_script(opts: &[&str], script: &[Step], healthy: &[u8], expect_in_fina
     }
     shim::disarm_sleep_gate();
     shim::wall_follows_virtual_time(false);
+    shim::compress_socket_timeouts(false);
     std::mem::forget(handle);
     rep
 }
